@@ -539,6 +539,10 @@ func c01Replay(c *engine.Ctx, rule string) {
 					retOK = true
 				}
 			}
+			evalErr, evalUsable := c01ReplayEval(f, call, verF)
+			if !retOK && evalErr {
+				retOK = true // decided by evaluation: the error travels through a result variable
+			}
 			c.Decide(rule, key+"|VerifyNext-error", ci.Instr.Pos(), retOK, "a VerifyNext error is returned to the caller", "the result of VerifyNext is not returned as an error: a remote whose metadata contradicts what was already loaded is accepted")
 			// (c) return (true, nil) only via verifier == nil or Done()
 			okC := true
@@ -564,6 +568,9 @@ func c01Replay(c *engine.Ctx, rule string) {
 					okC = false
 				}
 			}
+			if !okC && evalUsable {
+				okC = true
+			}
 			c.Decide(rule, key+"|usable-only-when-verified", ci.Instr.Pos(), okC, "'remote data usable' is reported only when the verifier is nil or done",
 				"remote data is reported usable on a path where the replay of earlier loads has not finished")
 			// (d) callers propagate
@@ -586,4 +593,65 @@ func c01Replay(c *engine.Ctx, rule string) {
 			}
 		}
 	}
+}
+
+// c01ReplayEval: the function that replays the responder's metadata against the loads already made is evaluated in
+// the finite domain with a replay pending (verifier installed and not done, queue not empty).
+//   errReturned: when VerifyNext fails, every return hands that very error on;
+//   usableOK:    when VerifyNext succeeds, no path reports "remote data usable" (true, nil) while the replay is pending.
+func c01ReplayEval(f *ssa.Function, verify *ssa.Call, verF *types.Var) (errReturned, usableOK bool) {
+	run := func(fail bool) (sawReturn, allErr, sawUsable bool) {
+		allErr = true
+		ev := &engine.Evaluator{MaxVisits: 2}
+		ev.Input = func(v ssa.Value) (engine.EVal, bool) {
+			switch x := v.(type) {
+			case *ssa.BinOp:
+				if (x.Op == token.EQL || x.Op == token.NEQ) && engine.IsNilConst(x.Y) {
+					if fl, _ := engine.LoadedField(engine.LocalValue(x.X)); fl == verF {
+						return engine.EVal{K: engine.EBool, B: x.Op == token.NEQ}, true // the verifier is installed
+					}
+				}
+			case *ssa.Call:
+				if x == verify {
+					if fail {
+						return engine.EVal{K: engine.EPtr, Tok: verify}, true
+					}
+					return engine.EVal{K: engine.ENil}, true
+				}
+				ci := engine.Resolve(x)
+				if ci.Is("~/requestmanager/reconciledloader/traversalrecord.Verifier.Done") {
+					return engine.EVal{K: engine.EBool, B: false}, true
+				}
+				if sc := x.Call.StaticCallee(); sc != nil && sc.Name() == "empty" && engine.FuncPkgPath(sc) == engine.FuncPkgPath(f) {
+					return engine.EVal{K: engine.EBool, B: false}, true
+				}
+			}
+			return engine.EVal{}, false
+		}
+		ev.Observe = func(in ssa.Instruction, get func(ssa.Value) engine.EVal) {
+			r, ok := in.(*ssa.Return)
+			if !ok || len(r.Results) < 2 {
+				return
+			}
+			sawReturn = true
+			e := get(r.Results[len(r.Results)-1])
+			if !(e.K == engine.EPtr && e.Tok == ssa.Value(verify)) {
+				allErr = false
+			}
+			b := get(r.Results[0])
+			if b.K == engine.EBool && b.B && e.K == engine.ENil {
+				sawUsable = true
+			}
+		}
+		ev.Run(f)
+		if ev.Aborted {
+			return false, false, true
+		}
+		return
+	}
+	saw, allErr, _ := run(true)
+	errReturned = saw && allErr
+	_, _, usable := run(false)
+	usableOK = !usable
+	return
 }
